@@ -130,6 +130,36 @@ func main() {
 	os.WriteFile(filepath.Join(vdir, "gen.go"), []byte(gen), 0644)
 	replace[filepath.Join(repo, "pkg/verifrt/verifrt.go")] = filepath.Join(vdir, "verifrt.go")
 	replace[filepath.Join(repo, "pkg/verifrt/gen.go")] = filepath.Join(vdir, "gen.go")
+	// files added to existing repository packages (exports of unexported functions), each
+	// guarded by the exact signatures it relies on; when a signature is gone a stub that
+	// fails closed is written instead, so the build never breaks.
+	for _, af := range addedFiles {
+		ok := true
+		for f, sigs := range af.requires {
+			b, err := os.ReadFile(filepath.Join(repo, f))
+			if err != nil {
+				ok = false
+				break
+			}
+			for _, sig := range sigs {
+				if !strings.Contains(string(b), sig) {
+					fmt.Fprintf(os.Stderr, "instr: %s: signature %q not found in %s\n", af.name, sig, f)
+					ok = false
+				}
+			}
+		}
+		src := af.stub
+		if ok {
+			src = af.src
+			applied = append(applied, af.name)
+		}
+		pp := filepath.Join(out, "added", af.path)
+		os.MkdirAll(filepath.Dir(pp), 0755)
+		os.WriteFile(pp, []byte(src), 0644)
+		replace[filepath.Join(repo, af.path)] = pp
+	}
+	gen = fmt.Sprintf("package verifrt\n\n// Variant is the overlay variant this binary was built with.\nconst Variant = %q\n\n// Applied lists the source rewrites that were applied.\nvar Applied = %#v\n", variant, applied)
+	os.WriteFile(filepath.Join(vdir, "gen.go"), []byte(gen), 0644)
 	for name, src := range extraFiles[variant] {
 		p := filepath.Join(vdir, name)
 		os.MkdirAll(filepath.Dir(p), 0755)
@@ -141,6 +171,55 @@ func main() {
 		fatal(err)
 	}
 	fmt.Printf("instr: variant=%s applied=%v\n", variant, applied)
+}
+
+type addedFile struct {
+	name     string
+	path     string
+	requires map[string][]string
+	src      string
+	stub     string
+}
+
+var addedFiles = []addedFile{
+	{
+		name: "export:packfile-header",
+		path: "pkg/encoding/packfile/verif_export.go",
+		requires: map[string][]string{"pkg/encoding/packfile/packfile.go": {
+			"func encodeObjTypeAndLen(buf encoding.Bufferer, objType int, u uint64) []byte",
+			"func decodeObjTypeAndLen(r io.Reader) (objType int, u uint64, err error)",
+		}},
+		src: `//go:build verif || !verif
+
+package packfile
+
+import (
+	"io"
+
+	"github.com/wrgl/wrgl/pkg/misc"
+)
+
+// VerifEncodeHeader exposes the object header encoder to /verif's harness (overlay only).
+func VerifEncodeHeader(objType int, u uint64) []byte {
+	return append([]byte{}, encodeObjTypeAndLen(misc.NewBuffer(nil), objType, u)...)
+}
+
+// VerifDecodeHeader exposes the object header decoder to /verif's harness (overlay only).
+func VerifDecodeHeader(r io.Reader) (int, uint64, error) { return decodeObjTypeAndLen(r) }
+`,
+		stub: `package packfile
+
+import "io"
+
+func VerifEncodeHeader(objType int, u uint64) []byte {
+	panic("mc: infrastructure: packfile header codec signatures changed; export not applied")
+}
+
+func VerifDecodeHeader(r io.Reader) (int, uint64, error) {
+	panic("mc: infrastructure: packfile header codec signatures changed; export not applied")
+}
+`,
+	},
 }
 
 var extraVariants = map[string]func() []rewrite{}
